@@ -1368,7 +1368,7 @@ static void assign_lvar_offsets(Obj *prog) {
       case TY_UNION:
         if (ty->size <= 16) {
           bool fp1 = has_flonum(ty, 0, 8, 0);
-          bool fp2 = has_flonum(ty, 8, 16, 8);
+          bool fp2 = has_flonum(ty, 8, 16, 0);
           if (fp + fp1 + fp2 < FP_MAX && gp + !fp1 + !fp2 < GP_MAX) {
             fp = fp + fp1 + fp2;
             gp = gp + !fp1 + !fp2;
